@@ -313,7 +313,6 @@ def gated_request(rng, cmd: str, tok_lines, refs, out_counter, payload=None, eol
         if kind in ("out", "both"):
             out_counter[0] += 1
             lines.append(b"OUT:" + f"out/f{out_counter[0]}.bin".encode())
-    rest = lines[1:] if rng.random() < 0.3 else lines
     for t in tok_lines:
         pos = rng.randrange(len(lines) + 1)
         lines.insert(pos, t)
@@ -340,7 +339,6 @@ def gen_case_c27(rng, big: bool) -> Case:
     variants = token_variants(rng, tok)
     shape = rng.choice(["sweep-store", "sweep-fetch", "sweep-stop", "mixed", "mixed"])
     n = rng.randint(6, 14) if not big else rng.randint(20, 40)
-    tags = []
     for i in range(n):
         label, tl = rng.choice(variants)
         cmd = {"sweep-store": "STORE", "sweep-fetch": "FETCH", "sweep-stop": "STOP"}.get(shape) or rng.choice(["STORE", "FETCH", "FETCH", "STOP", "PING", "LIST"])
@@ -349,9 +347,6 @@ def gen_case_c27(rng, big: bool) -> Case:
         lines, body = gated_request(rng, cmd, tl, refs, outc)
         eol = b"\r\n" if rng.random() < 0.15 else b"\n"
         ops.append(req(rng.choice([1, 1, 2]), lines, body, eol=eol, end=eol))
-        if cmd == "STORE" and label.startswith("exact") or label == "dup-bad-good":
-            pass
-        tags.append(label)
     ops.append(req(1, [b"COMMAND:PING"]))
     return Case(ops=ops, tag=shape)
 
@@ -413,7 +408,7 @@ def spec() -> Spec:
         generate=generate,
         extract=extract,
         nontrivial=nontrivial,
-        budget={"quick": 150, "thorough": 3000},
+        budget={"quick": 150, "thorough": 2000},
         search_budget={"quick": 600, "thorough": 8000},
         per_case_timeout=60.0,
         rule="daemon with a configured token (6 token values incl. colons, spaces, non-ASCII); 1-2 authenticated STOREs, then 6-40 "
